@@ -170,7 +170,6 @@ Lemma finish_sync_fields : forall sn cx so pl, finish_sync sn cx so = Ok pl ->
 Proof.
   intros sn cx so pl H. unfold finish_sync in H. fold (del_delayed_of sn cx so) in H.
   set (dd := del_delayed_of sn cx so) in *.
-  match type of H with (if ?c then _ else _) = _ => destruct c; [discriminate|] end.
   match type of H with (if ?c then _ else _) = _ => destruct c eqn:Eadm; [|discriminate] end.
   inversion H; subst pl; clear H. cbn.
   repeat split; auto.
